@@ -405,6 +405,51 @@ def wrapper_name_items():
     return out
 
 
+def semicolon_lambda_items(r, n):
+    """Module-level lambdas sharing ONE source line through `;` (2-3 per line, different signatures, defaults and
+    bodies), each converted directly (to_graph) and through a forwarding def (recursive converted_call): the
+    source recovered for each must be its own."""
+    out = []
+    for i in range(n):
+        k = r.choice([2, 2, 3])
+        pool = list(PARAM_POOL)
+        r.shuffle(pool)
+        lams = []
+        dj = itertools.count(1)
+        for j in range(k):
+            names = [pool.pop() for _ in range(3)]
+            shape = r.choice(['pos-default-kw', 'star', 'posonly', 'kwonly', 'plain']) if j else 'pos-default-kw'
+            a, b, c = names
+            if shape == 'pos-default-kw':
+                plist = '%s, %s=_d(%d, 1), *, %s=_d(%d, 2)' % (a, b, next(dj), c, next(dj))
+                body = '(%s, %s, %s, G, %d)' % (a, b, c, j)
+            elif shape == 'star':
+                plist = '*%s, **%s' % (a, b)
+                body = '(%s, %s, G, %d)' % (a, b, j)
+            elif shape == 'posonly':
+                plist = '%s, /, %s=_d(%d, 3)' % (a, b, next(dj))
+                body = '(%s, %s, %d)' % (a, b, j)
+            elif shape == 'kwonly':
+                plist = '*, %s, %s=_d(%d, 4)' % (a, b, next(dj))
+                body = '(%s, %s, G, %d)' % (a, b, j)
+            else:
+                plist = '%s, %s' % (a, b)
+                body = '(%s, %s, %d)' % (a, b, j)
+            lams.append('lam%d = lambda %s: %s' % (j, plist, body))
+        L = ['G = 41', '; '.join(lams)]
+        for j in range(k):
+            L.append('def via%d(*a, **k):' % j)
+            L.append('    return lam%d(*a, **k)' % j)
+            L.append('via%d._c09_calls_like = lam%d' % (j, j))
+        order = ['lam%d' % j for j in range(k)] + ['via%d' % j for j in range(k)]
+        if i % 2:
+            order = ['via%d' % j for j in range(k)] + ['lam%d' % j for j in range(k)]
+        L.append('def mk(base):')
+        L.append('    return (%s,)[base], None, None' % ', '.join(order))
+        out.append(('semicolon-lambdas', '\n'.join(L) + '\n', 2 * k))
+    return out
+
+
 # =========================================================================================
 # loading generated modules from real files
 # =========================================================================================
@@ -453,9 +498,11 @@ def find_def(src, target):
                 best = n
         if isinstance(n, ast.Lambda) and fn.__code__.co_name == '<lambda>' and n.lineno == line and best is None:
             a = n.args
-            names = [x.arg for x in a.posonlyargs + a.args + a.kwonlyargs]
+            names = [x.arg for x in a.posonlyargs + a.args + a.kwonlyargs] + \
+                [x.arg for x in (a.vararg, a.kwarg) if x is not None]
             c = fn.__code__
-            if names == list(c.co_varnames[:c.co_argcount + c.co_kwonlyargcount]):
+            if names == list(c.co_varnames[:len(names)]) and \
+                    len(names) == c.co_argcount + c.co_kwonlyargcount + bool(c.co_flags & 4) + bool(c.co_flags & 8):
                 best = n
     return best
 
@@ -894,7 +941,8 @@ def oracle(r, loaded, o, get_all, set_var, decos, calls_budget=3):
     call = target            # bound method: obj.f(*a) vs cf(obj, *a)
     pre = (target.__self__,) if inspect.ismethod(target) else ()
     ncalls = 0
-    for a, k in gen_calls(r, fn if not pre else _strip_first(fn), calls_budget):
+    shape = getattr(fn, '_c09_calls_like', None)      # a forwarding wrapper: bind like the function it forwards to
+    for a, k in gen_calls(r, shape or (fn if not pre else _strip_first(fn)), calls_budget):
         snap = snapshot(cells)
         gsnap = dict((g, fn.__globals__[g]) for g in gkeys)
         r0 = run_call(call, a, k)
@@ -1031,7 +1079,9 @@ def check(run):
                 'unassigned cells converted back to back, '
                 'defaults cleared / replaced after definition in a separate stream; + 6 fixed special shapes; + every '
                 'wrapper-level name of the generated module (inner_factory, outer_factory, ag__f, ag__lam, ..._1) as a '
-                'module global / free variable read directly, through nested defs, through lambdas, rebound; '
+                'module global / free variable read directly, through nested defs, through lambdas, rebound; + module-level '
+                'lambdas sharing one line through `;` (2-3 per line, different signatures / defaults), converted '
+                'directly and through a forwarding def (recursive converted_call); '
                 'distinct non-trivial = distinct (kind, parameter-kind shape, default pattern, closure usage modes)')
     tmp = vlib.ensure_dir(os.path.join(vlib.BUILD, 'tmp', 'c09-%d' % os.getpid()))
     old_tmp = os.environ.get('TMPDIR')
@@ -1077,6 +1127,9 @@ def _check(run, tmp):
                            'sig': None, 'closure': []}, textwrap.dedent(src).lstrip(), None, []))
         for name, src in wrapper_name_items():
             items.append(({'idx': len(items), 'kind': name, 'instances': 2, 'bases': [0, 0], 'cleared': None,
+                           'sig': None, 'closure': []}, src, None, []))
+        for name, src, k in semicolon_lambda_items(r, 8 if run.tier == 'quick' else 60):
+            items.append(({'idx': len(items), 'kind': name, 'instances': k, 'bases': list(range(k)), 'cleared': None,
                            'sig': None, 'closure': []}, src, None, []))
         for i in range(n_specs):
             spec = gen_spec(r, len(items))
